@@ -1208,7 +1208,7 @@ func nonNullByFold(c *Ctx, bt *btEnv) (map[*ssa.Function]bool, int) {
 		}
 		type verdict struct {
 			key, pos, good, bad string
-			ok                bool
+			ok                  bool
 		}
 		var vs []verdict
 		var vis []map[*ssa.Function]bool
